@@ -1,10 +1,1546 @@
-//! C02 — stub: property not yet claimed.
+//! C02 — client observes exactly the messages, metadata and status the server produced
+//! (and the handler exactly the request the caller sent), under any transport fragmentation.
+//!
+//! The real `tonic::client::Grpc` (raw byte codec) talks to the real `tonic::server::Grpc`
+//! running a scripted handler.  Quick tier: an in-process adapter service forwards the
+//! `http::Request`; request and response bodies are wrapped by `ReChunk`, which re-cuts the data
+//! at case-chosen sizes, injects `Pending`s, and delivers the trailers last.  Thorough tier
+//! additionally runs the same pair over real hyper/h2 on `tokio::io::duplex` pipes whose traffic
+//! is forwarded in fragments of case-chosen sizes (`h2` cases).
+//!
+//! Case grammar (space separated):
+//!   (call|callz-<g|d|z>|h2|h2x).S<q><s>.C<s'> <yieldThr> RQMD <hmap> RQ <k> <tok>*k RQCUT <j> <step>*j
+//!        H <reads> E <status|-> INIT <hmap> BODY <k> <tok>*k FINAL <status|-> RSCUT <j> <step>*j
+//!     q,s,s' ∈ {0,1}: server entry point takes a request stream / returns a response stream;
+//!                     client API returns a response stream
+//!     hmap   = <n> (<name> <value>)*n        wire entries (hex), in order
+//!     tok    = x<hex> message | p Pending
+//!     step   = <size> take that many bytes as one data frame | p Pending
+//!              (for `h2` cases the steps are the fragment sizes of the byte pipe, cyclically;
+//!               `h2x` = the same call three times concurrently on the one connection;
+//!               `callz-*` = compression enabled on both ends, plans cut the compressed bytes)
+//!     status = <code> <msg> <details> <hmap>
+//! Observed (after a summary token `K=<handler got>/<client got>`):
+//!   SEEN notcalled | SEEN unary <rhmap> <msg> | SEEN stream <rhmap> <k> <msg>*k open|done|err <rstatus>
+//!   CLIENT err <rstatus> | CLIENT single <rhmap> <msg> | CLIENT hang
+//!        | CLIENT stream <rhmap> <k> <msg>*k ok|err <rstatus> TR none|<rhmap>
+//!     rhmap = <#names> (<name> <#values> <value>*)*   names ascending;  rstatus = <code> <msg> <details> <rhmap>
 use crate::common::*;
+use crate::framing::{gen_msg, RawDec, RawEnc};
+use bytes::{Bytes, BytesMut};
+use http::HeaderMap;
+use http_body::{Body as HttpBody, Frame};
+use std::collections::VecDeque;
+use std::future::Future;
+use std::pin::Pin;
+use std::sync::{Arc, Mutex};
+use std::task::{Context, Poll};
+use std::time::Duration;
+use tokio_stream::Stream;
+use tonic::body::Body;
+use tonic::codec::{BufferSettings, Codec};
+use tonic::metadata::MetadataMap;
+use tonic::{Request, Response, Status, Streaming};
 
-pub fn generate(_tier: &str, _rng: &mut Rng) -> Vec<String> {
-    Vec::new()
+// ---------------------------------------------------------------------------------------------
+// case
+// ---------------------------------------------------------------------------------------------
+
+#[derive(Clone, Debug)]
+pub enum Tok {
+    Msg(Vec<u8>),
+    Pend,
 }
 
-pub fn execute(_case: &str) -> String {
-    "unclaimed".into()
+#[derive(Clone, Debug)]
+pub enum Step {
+    Take(usize),
+    Pend,
+}
+
+type Entries = Vec<(Vec<u8>, Vec<u8>)>;
+
+#[derive(Clone, Debug)]
+pub struct StatusSpec {
+    pub code: i32,
+    pub msg: Vec<u8>,
+    pub details: Vec<u8>,
+    pub md: Entries,
+}
+
+#[derive(Clone, Debug)]
+pub struct Case {
+    pub h2: bool,
+    /// number of concurrent identical calls on the one HTTP/2 connection (`h2x` cases)
+    pub conc: usize,
+    /// compression enabled (send + accept) on both ends: 'g' gzip, 'd' deflate, 'z' zstd (`callz-*` cases)
+    pub comp: Option<char>,
+    pub srv_req_stream: bool,
+    pub srv_resp_stream: bool,
+    pub cli_resp_stream: bool,
+    pub yield_thr: usize,
+    pub rq_md: Entries,
+    pub rq: Vec<Tok>,
+    pub rq_cut: Vec<Step>,
+    pub reads: usize,
+    pub early: Option<StatusSpec>,
+    pub init_md: Entries,
+    pub body: Vec<Tok>,
+    pub fin: Option<StatusSpec>,
+    pub rs_cut: Vec<Step>,
+}
+
+fn b(x: bool) -> char {
+    if x {
+        '1'
+    } else {
+        '0'
+    }
+}
+
+fn entries_line(e: &Entries) -> String {
+    let mut s = e.len().to_string();
+    for (k, v) in e {
+        s.push_str(&format!(" {} {}", hex(k), hex(v)));
+    }
+    s
+}
+
+fn toks_line(t: &[Tok]) -> String {
+    let mut s = t.len().to_string();
+    for x in t {
+        match x {
+            Tok::Msg(m) => s.push_str(&format!(" {}", hex(m))),
+            Tok::Pend => s.push_str(" p"),
+        }
+    }
+    s
+}
+
+fn steps_line(t: &[Step]) -> String {
+    let mut s = t.len().to_string();
+    for x in t {
+        match x {
+            Step::Take(n) => s.push_str(&format!(" {}", n)),
+            Step::Pend => s.push_str(" p"),
+        }
+    }
+    s
+}
+
+fn status_line(st: &Option<StatusSpec>) -> String {
+    match st {
+        None => "-".into(),
+        Some(s) => format!("{} {} {} {}", s.code, hex(&s.msg), hex(&s.details), entries_line(&s.md)),
+    }
+}
+
+impl Case {
+    pub fn line(&self) -> String {
+        format!(
+            "{}.S{}{}.C{} {} RQMD {} RQ {} RQCUT {} H {} E {} INIT {} BODY {} FINAL {} RSCUT {}",
+            match (self.h2, self.conc > 1, self.comp) {
+                (true, true, _) => "h2x".to_string(),
+                (true, false, _) => "h2".to_string(),
+                (false, _, Some(c)) => format!("callz-{}", c),
+                (false, _, None) => "call".to_string(),
+            },
+            b(self.srv_req_stream),
+            b(self.srv_resp_stream),
+            b(self.cli_resp_stream),
+            self.yield_thr,
+            entries_line(&self.rq_md),
+            toks_line(&self.rq),
+            steps_line(&self.rq_cut),
+            self.reads,
+            status_line(&self.early),
+            entries_line(&self.init_md),
+            toks_line(&self.body),
+            status_line(&self.fin),
+            steps_line(&self.rs_cut)
+        )
+    }
+}
+
+struct Cur<'a> {
+    t: Vec<&'a str>,
+    i: usize,
+}
+
+impl<'a> Cur<'a> {
+    fn next(&mut self) -> Option<&'a str> {
+        let r = self.t.get(self.i).copied();
+        self.i += 1;
+        r
+    }
+    fn expect(&mut self, s: &str) -> Option<()> {
+        if self.next()? == s {
+            Some(())
+        } else {
+            None
+        }
+    }
+    fn num(&mut self) -> Option<usize> {
+        self.next()?.parse().ok()
+    }
+    fn bytes(&mut self) -> Option<Vec<u8>> {
+        unhex(self.next()?)
+    }
+    fn entries(&mut self) -> Option<Entries> {
+        let n = self.num()?;
+        let mut e = Vec::new();
+        for _ in 0..n {
+            let k = self.bytes()?;
+            let v = self.bytes()?;
+            e.push((k, v));
+        }
+        Some(e)
+    }
+    fn toks(&mut self) -> Option<Vec<Tok>> {
+        let n = self.num()?;
+        let mut e = Vec::new();
+        for _ in 0..n {
+            let t = self.next()?;
+            e.push(if t == "p" { Tok::Pend } else { Tok::Msg(unhex(t)?) });
+        }
+        Some(e)
+    }
+    fn steps(&mut self) -> Option<Vec<Step>> {
+        let n = self.num()?;
+        let mut e = Vec::new();
+        for _ in 0..n {
+            let t = self.next()?;
+            e.push(if t == "p" { Step::Pend } else { Step::Take(t.parse().ok()?) });
+        }
+        Some(e)
+    }
+    fn status(&mut self) -> Option<Option<StatusSpec>> {
+        if self.t.get(self.i).copied()? == "-" {
+            self.i += 1;
+            return Some(None);
+        }
+        let code = self.num()? as i32;
+        let msg = self.bytes()?;
+        let details = self.bytes()?;
+        let md = self.entries()?;
+        Some(Some(StatusSpec { code, msg, details, md }))
+    }
+}
+
+pub fn parse_case(line: &str) -> Option<Case> {
+    let mut c = Cur { t: line.split(' ').filter(|x| !x.is_empty()).collect(), i: 0 };
+    let head: Vec<&str> = c.next()?.split('.').collect();
+    if head.len() != 3 {
+        return None;
+    }
+    let kind = head[0];
+    if kind != "call" && kind != "h2" && kind != "h2x" && !kind.starts_with("callz-") {
+        return None;
+    }
+    let s = head[1].as_bytes();
+    let cl = head[2].as_bytes();
+    if s.len() != 3 || cl.len() != 2 || s[0] != b'S' || cl[0] != b'C' {
+        return None;
+    }
+    let yield_thr = c.num()?;
+    c.expect("RQMD")?;
+    let rq_md = c.entries()?;
+    c.expect("RQ")?;
+    let rq = c.toks()?;
+    c.expect("RQCUT")?;
+    let rq_cut = c.steps()?;
+    c.expect("H")?;
+    let reads = c.num()?;
+    c.expect("E")?;
+    let early = c.status()?;
+    c.expect("INIT")?;
+    let init_md = c.entries()?;
+    c.expect("BODY")?;
+    let body = c.toks()?;
+    c.expect("FINAL")?;
+    let fin = c.status()?;
+    c.expect("RSCUT")?;
+    let rs_cut = c.steps()?;
+    Some(Case {
+        h2: kind == "h2" || kind == "h2x",
+        conc: if kind == "h2x" { 3 } else { 1 },
+        comp: kind.strip_prefix("callz-").and_then(|c| c.chars().next()),
+        srv_req_stream: s[1] == b'1',
+        srv_resp_stream: s[2] == b'1',
+        cli_resp_stream: cl[1] == b'1',
+        yield_thr,
+        rq_md,
+        rq,
+        rq_cut,
+        reads,
+        early,
+        init_md,
+        body,
+        fin,
+        rs_cut,
+    })
+}
+
+// ---------------------------------------------------------------------------------------------
+// raw codec with a configurable yield threshold
+// ---------------------------------------------------------------------------------------------
+
+#[derive(Clone, Copy)]
+pub struct RawCodec(pub usize);
+
+impl Codec for RawCodec {
+    type Encode = Vec<u8>;
+    type Decode = Vec<u8>;
+    type Encoder = RawEnc;
+    type Decoder = RawDec;
+    fn encoder(&mut self) -> RawEnc {
+        RawEnc(BufferSettings::new(8192, self.0))
+    }
+    fn decoder(&mut self) -> RawDec {
+        RawDec(BufferSettings::new(8192, self.0))
+    }
+}
+
+// ---------------------------------------------------------------------------------------------
+// building and rendering metadata / statuses
+// ---------------------------------------------------------------------------------------------
+
+fn header_map(e: &Entries) -> HeaderMap {
+    let mut h = HeaderMap::new();
+    for (k, v) in e {
+        if let (Ok(n), Ok(val)) = (http::HeaderName::from_bytes(k), http::HeaderValue::from_bytes(v)) {
+            h.append(n, val);
+        }
+    }
+    h
+}
+
+fn metadata(e: &Entries) -> MetadataMap {
+    MetadataMap::from_headers(header_map(e))
+}
+
+fn make_status(s: &StatusSpec) -> Status {
+    Status::with_details_and_metadata(
+        tonic::Code::from_i32(s.code),
+        String::from_utf8(s.msg.clone()).expect("case status messages are UTF-8"),
+        Bytes::from(s.details.clone()),
+        metadata(&s.md),
+    )
+}
+
+pub fn render_headers(h: &HeaderMap) -> String {
+    let mut names: Vec<&str> = h.keys().map(|k| k.as_str()).collect();
+    names.sort_by(|a, b| a.as_bytes().cmp(b.as_bytes()));
+    names.dedup();
+    let mut s = names.len().to_string();
+    for n in names {
+        let vals: Vec<String> = h.get_all(n).iter().map(|v| hex(v.as_bytes())).collect();
+        s.push_str(&format!(" {} {}", hex(n.as_bytes()), vals.len()));
+        for v in vals {
+            s.push(' ');
+            s.push_str(&v);
+        }
+    }
+    s
+}
+
+fn render_md(m: &MetadataMap) -> String {
+    render_headers(&m.clone().into_headers())
+}
+
+/// texts of statuses produced inside tonic whose tails carry numbers: cut to the fixed prefix
+const INTERNAL_PREFIXES: [&str; 6] = [
+    "Error, encoded message length too large",
+    "Cannot return body with more than 4GB of data",
+    "protocol error: received message with invalid compression flag",
+    "protocol error: received message with compressed-flag but no grpc-encoding was specified",
+    "Error, decoded message length too large",
+    "Error decompressing",
+];
+
+fn canon_msg(m: &str) -> Vec<u8> {
+    for p in INTERNAL_PREFIXES {
+        if m.starts_with(p) {
+            return p.as_bytes().to_vec();
+        }
+    }
+    m.as_bytes().to_vec()
+}
+
+fn render_status(st: &Status) -> String {
+    format!("{} {} {} {}", st.code() as i32, hex(&canon_msg(st.message())), hex(st.details()), render_md(st.metadata()))
+}
+
+// ---------------------------------------------------------------------------------------------
+// the re-chunking body (the transport of the quick tier)
+// ---------------------------------------------------------------------------------------------
+
+pub struct ReChunk {
+    inner: Body,
+    plan: VecDeque<Step>,
+    buf: BytesMut,
+    inner_done: bool,
+    trailers: Option<HeaderMap>,
+    polls_after_end: usize,
+}
+
+impl ReChunk {
+    pub fn new(inner: Body, plan: &[Step]) -> Self {
+        ReChunk { inner, plan: plan.iter().cloned().collect(), buf: BytesMut::new(), inner_done: false, trailers: None, polls_after_end: 0 }
+    }
+    /// pull one frame of the wrapped body into the buffer
+    fn pull(&mut self, cx: &mut Context<'_>) -> Poll<Result<(), Status>> {
+        match Pin::new(&mut self.inner).poll_frame(cx) {
+            Poll::Pending => Poll::Pending,
+            Poll::Ready(None) => {
+                self.inner_done = true;
+                Poll::Ready(Ok(()))
+            }
+            Poll::Ready(Some(Err(e))) => Poll::Ready(Err(e)),
+            Poll::Ready(Some(Ok(f))) => {
+                if f.is_data() {
+                    self.buf.extend_from_slice(&f.into_data().unwrap());
+                } else if let Ok(t) = f.into_trailers() {
+                    // trailers end a body
+                    self.trailers = Some(t);
+                    self.inner_done = true;
+                }
+                Poll::Ready(Ok(()))
+            }
+        }
+    }
+}
+
+impl HttpBody for ReChunk {
+    type Data = Bytes;
+    type Error = Status;
+    fn poll_frame(mut self: Pin<&mut Self>, cx: &mut Context<'_>) -> Poll<Option<Result<Frame<Bytes>, Status>>> {
+        let this = &mut *self;
+        loop {
+            match this.plan.front().cloned() {
+                Some(Step::Pend) => {
+                    this.plan.pop_front();
+                    cx.waker().wake_by_ref();
+                    return Poll::Pending;
+                }
+                Some(Step::Take(k)) => {
+                    while this.buf.len() < k && !this.inner_done {
+                        match this.pull(cx) {
+                            Poll::Pending => return Poll::Pending,
+                            Poll::Ready(Err(e)) => return Poll::Ready(Some(Err(e))),
+                            Poll::Ready(Ok(())) => {}
+                        }
+                    }
+                    this.plan.pop_front();
+                    let n = k.min(this.buf.len());
+                    if k > 0 && n == 0 {
+                        continue; // nothing left to cut
+                    }
+                    return Poll::Ready(Some(Ok(Frame::data(this.buf.split_to(n).freeze()))));
+                }
+                None => {
+                    while !this.inner_done {
+                        match this.pull(cx) {
+                            Poll::Pending => return Poll::Pending,
+                            Poll::Ready(Err(e)) => return Poll::Ready(Some(Err(e))),
+                            Poll::Ready(Ok(())) => {}
+                        }
+                    }
+                    if !this.buf.is_empty() {
+                        let n = this.buf.len();
+                        return Poll::Ready(Some(Ok(Frame::data(this.buf.split_to(n).freeze()))));
+                    }
+                    if let Some(t) = this.trailers.take() {
+                        return Poll::Ready(Some(Ok(Frame::trailers(t))));
+                    }
+                    this.polls_after_end += 1;
+                    return Poll::Ready(None);
+                }
+            }
+        }
+    }
+}
+
+// ---------------------------------------------------------------------------------------------
+// scripted streams
+// ---------------------------------------------------------------------------------------------
+
+struct ReqStream(VecDeque<Tok>);
+
+impl Stream for ReqStream {
+    type Item = Vec<u8>;
+    fn poll_next(mut self: Pin<&mut Self>, cx: &mut Context<'_>) -> Poll<Option<Vec<u8>>> {
+        match self.0.pop_front() {
+            None => Poll::Ready(None),
+            Some(Tok::Pend) => {
+                cx.waker().wake_by_ref();
+                Poll::Pending
+            }
+            Some(Tok::Msg(m)) => Poll::Ready(Some(m)),
+        }
+    }
+}
+
+struct RespStream {
+    toks: VecDeque<Tok>,
+    fin: Option<Status>,
+}
+
+impl Stream for RespStream {
+    type Item = Result<Vec<u8>, Status>;
+    fn poll_next(mut self: Pin<&mut Self>, cx: &mut Context<'_>) -> Poll<Option<Self::Item>> {
+        match self.toks.pop_front() {
+            None => Poll::Ready(self.fin.take().map(Err)),
+            Some(Tok::Pend) => {
+                cx.waker().wake_by_ref();
+                Poll::Pending
+            }
+            Some(Tok::Msg(m)) => Poll::Ready(Some(Ok(m))),
+        }
+    }
+}
+
+type BoxStream = Pin<Box<dyn Stream<Item = Result<Vec<u8>, Status>> + Send>>;
+type BoxFut<T> = Pin<Box<dyn Future<Output = T> + Send>>;
+
+// ---------------------------------------------------------------------------------------------
+// the scripted handler (all four service traits)
+// ---------------------------------------------------------------------------------------------
+
+#[derive(Clone)]
+struct Handler {
+    case: Arc<Case>,
+    seen: Arc<Mutex<String>>,
+}
+
+impl Handler {
+    fn single(&self) -> Result<Response<Vec<u8>>, Status> {
+        if let Some(e) = &self.case.early {
+            return Err(make_status(e));
+        }
+        let m = self
+            .case
+            .body
+            .iter()
+            .find_map(|t| if let Tok::Msg(m) = t { Some(m.clone()) } else { None })
+            .expect("a unary-response handler script has a message");
+        let mut r = Response::new(m);
+        *r.metadata_mut() = metadata(&self.case.init_md);
+        Ok(r)
+    }
+    fn stream(&self) -> Result<Response<BoxStream>, Status> {
+        if let Some(e) = &self.case.early {
+            return Err(make_status(e));
+        }
+        let s = RespStream { toks: self.case.body.iter().cloned().collect(), fin: self.case.fin.as_ref().map(make_status) };
+        let mut r = Response::new(Box::pin(s) as BoxStream);
+        *r.metadata_mut() = metadata(&self.case.init_md);
+        Ok(r)
+    }
+    /// metadata as the handler got it; over the real channel tonic's transport adds its own
+    /// `user-agent` (a reserved name, not user metadata)
+    fn seen_md(&self, m: &MetadataMap) -> String {
+        let mut h = m.clone().into_headers();
+        if self.case.h2 {
+            h.remove("user-agent");
+        }
+        if self.case.comp.is_some() {
+            for n in COMPRESSION_NAMES {
+                h.remove(n);
+            }
+        }
+        render_headers(&h)
+    }
+    /// every invocation must have seen the same thing (concurrent identical calls)
+    fn record(&self, what: String) {
+        let mut cur = self.seen.lock().unwrap();
+        if *cur == "notcalled" {
+            *cur = what;
+        } else if *cur != what && !cur.starts_with("DIVERGED") {
+            *cur = format!("DIVERGED {} || {}", cur, what).replace(' ', "_");
+        }
+    }
+    fn saw_unary(&self, req: &Request<Vec<u8>>) {
+        self.record(format!("unary {} {}", self.seen_md(req.metadata()), hex(req.get_ref())));
+    }
+    async fn read_stream(&self, req: Request<Streaming<Vec<u8>>>) {
+        let (md, _ext, mut s) = req.into_parts();
+        let mut msgs = Vec::new();
+        let mut ended = "open".to_string();
+        for _ in 0..self.case.reads {
+            match s.message().await {
+                Ok(Some(m)) => msgs.push(hex(&m)),
+                Ok(None) => {
+                    ended = "done".into();
+                    break;
+                }
+                Err(st) => {
+                    ended = format!("err {}", render_status(&st));
+                    break;
+                }
+            }
+        }
+        let mut out = format!("stream {} {}", self.seen_md(&md), msgs.len());
+        for m in msgs {
+            out.push(' ');
+            out.push_str(&m);
+        }
+        out.push(' ');
+        out.push_str(&ended);
+        self.record(out);
+    }
+}
+
+impl tonic::server::UnaryService<Vec<u8>> for Handler {
+    type Response = Vec<u8>;
+    type Future = BoxFut<Result<Response<Vec<u8>>, Status>>;
+    fn call(&mut self, req: Request<Vec<u8>>) -> Self::Future {
+        let h = self.clone();
+        Box::pin(async move {
+            h.saw_unary(&req);
+            h.single()
+        })
+    }
+}
+
+impl tonic::server::ServerStreamingService<Vec<u8>> for Handler {
+    type Response = Vec<u8>;
+    type ResponseStream = BoxStream;
+    type Future = BoxFut<Result<Response<BoxStream>, Status>>;
+    fn call(&mut self, req: Request<Vec<u8>>) -> Self::Future {
+        let h = self.clone();
+        Box::pin(async move {
+            h.saw_unary(&req);
+            h.stream()
+        })
+    }
+}
+
+impl tonic::server::ClientStreamingService<Vec<u8>> for Handler {
+    type Response = Vec<u8>;
+    type Future = BoxFut<Result<Response<Vec<u8>>, Status>>;
+    fn call(&mut self, req: Request<Streaming<Vec<u8>>>) -> Self::Future {
+        let h = self.clone();
+        Box::pin(async move {
+            h.read_stream(req).await;
+            h.single()
+        })
+    }
+}
+
+impl tonic::server::StreamingService<Vec<u8>> for Handler {
+    type Response = Vec<u8>;
+    type ResponseStream = BoxStream;
+    type Future = BoxFut<Result<Response<BoxStream>, Status>>;
+    fn call(&mut self, req: Request<Streaming<Vec<u8>>>) -> Self::Future {
+        let h = self.clone();
+        Box::pin(async move {
+            h.read_stream(req).await;
+            h.stream()
+        })
+    }
+}
+
+/// the real `server::Grpc` entry point the case names
+fn encoding_of(c: Option<char>) -> Option<tonic::codec::CompressionEncoding> {
+    match c {
+        Some('g') => Some(tonic::codec::CompressionEncoding::Gzip),
+        Some('d') => Some(tonic::codec::CompressionEncoding::Deflate),
+        Some('z') => Some(tonic::codec::CompressionEncoding::Zstd),
+        _ => None,
+    }
+}
+
+/// names the protocol itself adds when compression is on; removed before comparing (the Lean
+/// model has compression off: these cases check that compression is transparent end to end)
+const COMPRESSION_NAMES: [&str; 2] = ["grpc-encoding", "grpc-accept-encoding"];
+
+async fn serve(case: Arc<Case>, seen: Arc<Mutex<String>>, req: http::Request<Body>) -> http::Response<Body> {
+    let mut grpc = tonic::server::Grpc::new(RawCodec(case.yield_thr));
+    if let Some(e) = encoding_of(case.comp) {
+        grpc = grpc.accept_compressed(e).send_compressed(e);
+    }
+    let h = Handler { case: case.clone(), seen };
+    match (case.srv_req_stream, case.srv_resp_stream) {
+        (false, false) => grpc.unary(h, req).await,
+        (false, true) => grpc.server_streaming(h, req).await,
+        (true, false) => grpc.client_streaming(h, req).await,
+        (true, true) => grpc.streaming(h, req).await,
+    }
+}
+
+// ---------------------------------------------------------------------------------------------
+// quick tier transport: in-process adapter
+// ---------------------------------------------------------------------------------------------
+
+#[derive(Clone)]
+struct InProc {
+    case: Arc<Case>,
+    seen: Arc<Mutex<String>>,
+}
+
+impl tower::Service<http::Request<Body>> for InProc {
+    type Response = http::Response<Body>;
+    type Error = Status;
+    type Future = BoxFut<Result<Self::Response, Status>>;
+    fn poll_ready(&mut self, _cx: &mut Context<'_>) -> Poll<Result<(), Status>> {
+        Poll::Ready(Ok(()))
+    }
+    fn call(&mut self, req: http::Request<Body>) -> Self::Future {
+        let case = self.case.clone();
+        let seen = self.seen.clone();
+        Box::pin(async move {
+            let (parts, body) = req.into_parts();
+            let req = http::Request::from_parts(parts, Body::new(ReChunk::new(body, &case.rq_cut)));
+            let resp = serve(case.clone(), seen, req).await;
+            let (parts, body) = resp.into_parts();
+            Ok(http::Response::from_parts(parts, Body::new(ReChunk::new(body, &case.rs_cut))))
+        })
+    }
+}
+
+// ---------------------------------------------------------------------------------------------
+// the client side: one call through the public client API, observed to its end
+// ---------------------------------------------------------------------------------------------
+
+async fn client_call<T>(case: &Case, svc: T, strip: &[&str]) -> String
+where
+    T: tonic::client::GrpcService<Body> + Send,
+    T::ResponseBody: HttpBody<Data = Bytes> + Send + 'static,
+    <T::ResponseBody as HttpBody>::Error: Into<Box<dyn std::error::Error + Send + Sync>> + Send,
+    T::Future: Send,
+{
+    let mut grpc = tonic::client::Grpc::with_origin(svc, http::Uri::from_static("http://verif.test"));
+    if let Some(e) = encoding_of(case.comp) {
+        grpc = grpc.send_compressed(e).accept_compressed(e);
+    }
+    if grpc.ready().await.is_err() {
+        return "CLIENT notready".into();
+    }
+    let path = http::uri::PathAndQuery::from_static("/verif.Svc/Call");
+    let codec = RawCodec(case.yield_thr);
+    let md = metadata(&case.rq_md);
+    let single_req: Option<Vec<u8>> = match &case.rq[..] {
+        [Tok::Msg(m)] => Some(m.clone()),
+        _ => None,
+    };
+    let mk_stream = || ReqStream(case.rq.iter().cloned().collect());
+    let clean = |m: &MetadataMap| {
+        let mut h = m.clone().into_headers();
+        for s in strip {
+            h.remove(*s);
+        }
+        render_headers(&h)
+    };
+    let clean_status = |st: &Status| {
+        let mut h = st.metadata().clone().into_headers();
+        for s in strip {
+            h.remove(*s);
+        }
+        format!("{} {} {} {}", st.code() as i32, hex(&canon_msg(st.message())), hex(st.details()), render_headers(&h))
+    };
+    if !case.cli_resp_stream {
+        let r = match single_req {
+            Some(m) => grpc.unary(Request::from_parts(md, Default::default(), m), path, codec).await,
+            None => grpc.client_streaming(Request::from_parts(md, Default::default(), mk_stream()), path, codec).await,
+        };
+        match r {
+            Err(st) => format!("CLIENT err {}", clean_status(&st)),
+            Ok(resp) => {
+                let (md, m, _) = resp.into_parts();
+                format!("CLIENT single {} {}", clean(&md), hex(&m))
+            }
+        }
+    } else {
+        let r = match single_req {
+            Some(m) => grpc.server_streaming(Request::from_parts(md, Default::default(), m), path, codec).await,
+            None => grpc.streaming(Request::from_parts(md, Default::default(), mk_stream()), path, codec).await,
+        };
+        match r {
+            Err(st) => format!("CLIENT err {}", clean_status(&st)),
+            Ok(resp) => {
+                let (md, mut s, _) = resp.into_parts();
+                let mut msgs = Vec::new();
+                let ended;
+                loop {
+                    match s.message().await {
+                        Ok(Some(m)) => msgs.push(hex(&m)),
+                        Ok(None) => {
+                            ended = "ok".to_string();
+                            break;
+                        }
+                        Err(st) => {
+                            ended = format!("err {}", clean_status(&st));
+                            break;
+                        }
+                    }
+                    if msgs.len() > 100_000 {
+                        return "CLIENT busy-loop".into();
+                    }
+                }
+                let tr = match s.trailers().await {
+                    Ok(None) => "none".to_string(),
+                    Ok(Some(t)) => clean(&t),
+                    Err(st) => format!("err {}", clean_status(&st)),
+                };
+                let mut out = format!("CLIENT stream {} {}", clean(&md), msgs.len());
+                for m in msgs {
+                    out.push(' ');
+                    out.push_str(&m);
+                }
+                format!("{} {} TR {}", out, ended, tr)
+            }
+        }
+    }
+}
+
+fn exec_inproc(case: Case) -> String {
+    let rt = paused_rt();
+    rt.block_on(async move {
+        let case = Arc::new(case);
+        let seen = Arc::new(Mutex::new("notcalled".to_string()));
+        let svc = InProc { case: case.clone(), seen: seen.clone() };
+        let strip: &[&str] = if case.comp.is_some() { &COMPRESSION_NAMES } else { &[] };
+        let client = match tokio::time::timeout(Duration::from_secs(30), client_call(&case, svc, strip)).await {
+            Ok(s) => s,
+            Err(_) => "CLIENT hang".to_string(),
+        };
+        let s = seen.lock().unwrap().clone();
+        summarise(&s, &client)
+    })
+}
+
+/// `K=<what the handler got>/<what the client got>`: a summary token put first so that the
+/// evidence's distribution by observed class is informative
+fn summarise(seen: &str, client: &str) -> String {
+    let sw: Vec<&str> = seen.split(' ').collect();
+    let sk = match sw[0] {
+        "stream" => format!("stream-{}", if sw.contains(&"err") { "err" } else { sw[sw.len() - 1] }),
+        other => other.to_string(),
+    };
+    let cw: Vec<&str> = client.split(' ').collect();
+    let ck = match cw.get(1).copied().unwrap_or("?") {
+        "stream" => {
+            let tr = cw.iter().position(|x| *x == "TR").unwrap_or(cw.len());
+            format!("stream-{}", if cw[..tr].contains(&"err") { "err" } else { "ok" })
+        }
+        "err" => format!("err{}", cw.get(2).copied().unwrap_or("")),
+        other => other.to_string(),
+    };
+    format!("K={}/{} SEEN {} {}", sk, ck, seen, client)
+}
+
+// ---------------------------------------------------------------------------------------------
+// thorough tier transport: real hyper/h2 over fragmenting duplex pipes
+// ---------------------------------------------------------------------------------------------
+
+#[derive(Clone)]
+struct H2Svc {
+    case: Arc<Case>,
+    seen: Arc<Mutex<String>>,
+}
+
+impl tonic::server::NamedService for H2Svc {
+    const NAME: &'static str = "verif.Svc";
+}
+
+impl tower::Service<http::Request<Body>> for H2Svc {
+    type Response = http::Response<Body>;
+    type Error = std::convert::Infallible;
+    type Future = BoxFut<Result<Self::Response, Self::Error>>;
+    fn poll_ready(&mut self, _cx: &mut Context<'_>) -> Poll<Result<(), Self::Error>> {
+        Poll::Ready(Ok(()))
+    }
+    fn call(&mut self, req: http::Request<Body>) -> Self::Future {
+        let case = self.case.clone();
+        let seen = self.seen.clone();
+        Box::pin(async move { Ok(serve(case, seen, req).await) })
+    }
+}
+
+/// forward bytes from `r` to `w` in fragments whose sizes follow `sizes` cyclically, yielding
+/// to the scheduler between fragments (`Pend` = an extra yield)
+async fn fragmenting_copy<R, W>(mut r: R, mut w: W, steps: Vec<Step>)
+where
+    R: tokio::io::AsyncRead + Unpin,
+    W: tokio::io::AsyncWrite + Unpin,
+{
+    use tokio::io::{AsyncReadExt, AsyncWriteExt};
+    let mut i = 0usize;
+    let mut buf = vec![0u8; 64 * 1024];
+    loop {
+        // next fragment size; `Pend` steps on the way are extra yields (never a spin: at most one
+        // pass over the plan per fragment)
+        let mut want = buf.len();
+        for _ in 0..steps.len() {
+            let s = steps[i % steps.len()].clone();
+            i += 1;
+            match s {
+                Step::Pend => tokio::task::yield_now().await,
+                Step::Take(k) => {
+                    want = k.clamp(1, buf.len());
+                    break;
+                }
+            }
+        }
+        match r.read(&mut buf[..want]).await {
+            Ok(0) | Err(_) => break,
+            Ok(n) => {
+                if w.write_all(&buf[..n]).await.is_err() {
+                    break;
+                }
+                let _ = w.flush().await;
+                tokio::task::yield_now().await;
+            }
+        }
+    }
+    let _ = w.shutdown().await;
+}
+
+#[derive(Clone)]
+struct PipeConnector {
+    case: Arc<Case>,
+    seen: Arc<Mutex<String>>,
+    stops: Arc<Mutex<Vec<tokio::sync::oneshot::Sender<()>>>>,
+}
+
+impl tower::Service<http::Uri> for PipeConnector {
+    type Response = hyper_util::rt::TokioIo<tokio::io::DuplexStream>;
+    type Error = std::io::Error;
+    type Future = BoxFut<Result<Self::Response, Self::Error>>;
+    fn poll_ready(&mut self, _cx: &mut Context<'_>) -> Poll<Result<(), Self::Error>> {
+        Poll::Ready(Ok(()))
+    }
+    fn call(&mut self, _uri: http::Uri) -> Self::Future {
+        let me = self.clone();
+        Box::pin(async move {
+            let (client_io, cable_a) = tokio::io::duplex(64 * 1024);
+            let (cable_b, server_io) = tokio::io::duplex(64 * 1024);
+            let (stop_tx, stop_rx) = tokio::sync::oneshot::channel::<()>();
+            me.stops.lock().unwrap().push(stop_tx);
+            let svc = H2Svc { case: me.case.clone(), seen: me.seen.clone() };
+            tokio::spawn(async move {
+                use tokio_stream::StreamExt;
+                let incoming = tokio_stream::once(Ok::<_, std::io::Error>(server_io)).chain(tokio_stream::pending());
+                let _ = tonic::transport::Server::builder()
+                    .add_service(svc)
+                    .serve_with_incoming_shutdown(incoming, async move {
+                        let _ = stop_rx.await;
+                    })
+                    .await;
+            });
+            let (ar, aw) = tokio::io::split(cable_a);
+            let (br, bw) = tokio::io::split(cable_b);
+            tokio::spawn(fragmenting_copy(ar, bw, me.case.rq_cut.clone()));
+            tokio::spawn(fragmenting_copy(br, aw, me.case.rs_cut.clone()));
+            Ok(hyper_util::rt::TokioIo::new(client_io))
+        })
+    }
+}
+
+fn exec_h2(case: Case) -> String {
+    let rt = paused_rt();
+    rt.block_on(async move {
+        let case = Arc::new(case);
+        let seen = Arc::new(Mutex::new("notcalled".to_string()));
+        let stops = Arc::new(Mutex::new(Vec::new()));
+        let connector = PipeConnector { case: case.clone(), seen: seen.clone(), stops: stops.clone() };
+        let endpoint = tonic::transport::Endpoint::from_static("http://verif.test");
+        let channel = match tokio::time::timeout(Duration::from_secs(30), endpoint.connect_with_connector(connector)).await {
+            Ok(Ok(ch)) => ch,
+            Ok(Err(e)) => return format!("K=notcalled/connect-failed SEEN notcalled CLIENT connect-failed {}", format!("{:?}", e).replace(' ', "_")),
+            Err(_) => return "K=notcalled/hang SEEN notcalled CLIENT hang".to_string(),
+        };
+        // hyper's server adds `date`; it is not part of what tonic or the handler sent
+        let client = if case.conc <= 1 {
+            match tokio::time::timeout(Duration::from_secs(60), client_call(&case, channel, &["date"])).await {
+                Ok(s) => s,
+                Err(_) => "CLIENT hang".to_string(),
+            }
+        } else {
+            // the same call several times at once on the one connection: h2 interleaves the
+            // frames of the streams; every call must come out the same
+            let mut handles = Vec::new();
+            for _ in 0..case.conc {
+                let ch = channel.clone();
+                let case = case.clone();
+                handles.push(tokio::spawn(async move {
+                    match tokio::time::timeout(Duration::from_secs(60), client_call(&case, ch, &["date"])).await {
+                        Ok(s) => s,
+                        Err(_) => "CLIENT hang".to_string(),
+                    }
+                }));
+            }
+            let mut results = Vec::new();
+            for h in handles {
+                results.push(h.await.unwrap_or_else(|_| "CLIENT panic".to_string()));
+            }
+            if results.iter().all(|r| *r == results[0]) {
+                results[0].clone()
+            } else {
+                format!("CLIENT DIVERGED {}", results.join("_||_").replace(' ', "_"))
+            }
+        };
+        for s in stops.lock().unwrap().drain(..) {
+            let _ = s.send(());
+        }
+        let s = seen.lock().unwrap().clone();
+        summarise(&s, &client)
+    })
+}
+
+pub fn execute(case: &str) -> String {
+    match parse_case(case) {
+        None => "bad-case".into(),
+        Some(c) => {
+            if !c.srv_resp_stream && c.early.is_none() && !c.body.iter().any(|t| matches!(t, Tok::Msg(_))) {
+                return "bad-case".into();
+            }
+            if c.h2 {
+                exec_h2(c)
+            } else {
+                exec_inproc(c)
+            }
+        }
+    }
+}
+
+// ---------------------------------------------------------------------------------------------
+// generators
+// ---------------------------------------------------------------------------------------------
+
+fn s(x: &str) -> Vec<u8> {
+    x.as_bytes().to_vec()
+}
+
+const B64: &[u8; 64] = b"ABCDEFGHIJKLMNOPQRSTUVWXYZabcdefghijklmnopqrstuvwxyz0123456789+/";
+
+/// unpadded standard base64 (what tonic stores for a binary metadata value)
+fn b64(raw: &[u8]) -> Vec<u8> {
+    let mut out = Vec::new();
+    for c in raw.chunks(3) {
+        let n = (c[0] as u32) << 16 | (*c.get(1).unwrap_or(&0) as u32) << 8 | *c.get(2).unwrap_or(&0) as u32;
+        out.push(B64[(n >> 18) as usize & 63]);
+        out.push(B64[(n >> 12) as usize & 63]);
+        if c.len() > 1 {
+            out.push(B64[(n >> 6) as usize & 63]);
+        }
+        if c.len() > 2 {
+            out.push(B64[n as usize & 63]);
+        }
+    }
+    out
+}
+
+const CUSTOM_NAMES: [&str; 8] = ["x-a", "x-b", "x-trace-id", "a", "zz-top", "x-a-bin", "data-bin", "x_under.dot"];
+const RESERVED_NAMES: [&str; 7] = ["te", "user-agent", "content-type", "grpc-status", "grpc-message", "grpc-message-type", "grpc-status-details-bin"];
+
+fn gen_value(rng: &mut Rng, bin: bool) -> Vec<u8> {
+    if bin {
+        let n = *rng.pick(&[0usize, 1, 2, 3, 4, 5, 16, 33]);
+        return b64(&rng.bytes(n));
+    }
+    match rng.below(8) {
+        0 => vec![],
+        1 => s("1"),
+        2 => s("a b  c"),
+        3 => s("v:1,v:2;q=0.5"),
+        4 => s("%41%zz 100%"),
+        5 => {
+            // obs-text and TAB are legal header value bytes
+            vec![b'x', 0x09, 0x80, 0xC3, 0xA9, 0xFF, b'y']
+        }
+        6 => {
+            let n = rng.range(1, 120) as usize;
+            (0..n).map(|_| rng.range(0x21, 0x7e) as u8).collect()
+        }
+        _ => s("value"),
+    }
+}
+
+/// metadata with repeated names (interleaved with other names), binary names, reserved names
+fn gen_md(rng: &mut Rng, h2: bool) -> Entries {
+    let mut e = Vec::new();
+    let n = match rng.below(6) {
+        0 => 0,
+        1 => 1,
+        _ => rng.range(1, 7),
+    };
+    for _ in 0..n {
+        let name = if rng.chance(1, 5) { *rng.pick(&RESERVED_NAMES) } else { *rng.pick(&CUSTOM_NAMES) };
+        // over real HTTP/2 `te` may only be "trailers" on the wire; it is stripped anyway
+        let bin = name.ends_with("-bin");
+        let mut v = gen_value(rng, bin);
+        if h2 {
+            // h2 rejects nothing in values that http accepts, but keep to visible ASCII + obs-text
+            v.retain(|b| *b != 0x09 || true);
+        }
+        e.push((s(name), v.clone()));
+        if rng.chance(1, 3) {
+            // repeat the name right away or later
+            let v2 = gen_value(rng, bin);
+            if rng.chance(1, 2) {
+                e.push((s(name), v2));
+            } else {
+                let other = *rng.pick(&CUSTOM_NAMES);
+                e.push((s(other), gen_value(rng, other.ends_with("-bin"))));
+                e.push((s(name), v2));
+            }
+        }
+    }
+    e
+}
+
+const TEXTS: [&str; 14] = [
+    "",
+    "user",
+    "50% off",
+    "%",
+    "%41%zz",
+    "line1\nline2\r\n",
+    "na\u{ef}ve \u{fc}n\u{ef} \u{2014} \u{2713} \u{1F600}",
+    " leading and trailing ",
+    "tab\there\u{0}nul\u{7f}del",
+    "{\"json\": [1,2,3]}",
+    "grpc-status: 0",
+    "\u{feff}bom",
+    "status: 13 internal? no: a user text",
+    "a+b=c&d / e\\f",
+];
+
+fn gen_text(rng: &mut Rng) -> Vec<u8> {
+    match rng.below(4) {
+        0 => {
+            let n = rng.range(0, 12) as usize;
+            let pool: Vec<char> = "a %\n\u{e9}\u{4e2d}\u{1F600}~\u{80}\u{7ff}\u{800}\u{ffff}\t\"".chars().collect();
+            let st: String = (0..n).map(|_| *rng.pick(&pool)).collect();
+            st.into_bytes()
+        }
+        1 => {
+            let n = *rng.pick(&[1usize, 63, 64, 255, 256, 300, 1000]);
+            vec![b'm'; n]
+        }
+        _ => s(*rng.pick(&TEXTS)),
+    }
+}
+
+fn gen_details(rng: &mut Rng) -> Vec<u8> {
+    match rng.below(6) {
+        0 | 1 => vec![],
+        2 => { let n = rng.range(1, 4) as usize; rng.bytes(n) } // every base64 tail length
+        3 => vec![0xFF, 0x00, 0xFB, 0xEF, 0xBE], // '+' and '/' heavy
+        4 => { let n = rng.range(5, 200) as usize; rng.bytes(n) }
+        _ => vec![0u8; rng.range(1, 7) as usize],
+    }
+}
+
+fn gen_status(rng: &mut Rng, h2: bool) -> StatusSpec {
+    StatusSpec { code: rng.range(1, 16) as i32, msg: gen_text(rng), details: gen_details(rng), md: gen_md(rng, h2) }
+}
+
+/// sizes around HTTP/2's default frame size and flow-control window and tonic's yield threshold
+const BIG: [usize; 9] = [16379, 16384, 16385, 32763, 32768, 65530, 65536, 70000, 150000];
+
+fn gen_big(rng: &mut Rng) -> Vec<u8> {
+    let n = *rng.pick(&BIG);
+    let seed = rng.next() as u8;
+    let mut m: Vec<u8> = (0..n).map(|i| (i as u8).wrapping_mul(31).wrapping_add(seed)).collect();
+    if m[0] == 0xFF {
+        m[0] = 0xFE;
+    }
+    m
+}
+
+fn gen_sched(rng: &mut Rng, k: usize, maxlen: usize, pendings: bool) -> Vec<Tok> {
+    let mut t = Vec::new();
+    for _ in 0..k {
+        while pendings && rng.chance(1, 4) {
+            t.push(Tok::Pend);
+        }
+        t.push(Tok::Msg(if rng.chance(1, 150) { gen_big(rng) } else { gen_msg(rng, maxlen) }));
+    }
+    while pendings && rng.chance(1, 4) {
+        t.push(Tok::Pend);
+    }
+    t
+}
+
+fn frame_starts(t: &[Tok]) -> (Vec<usize>, usize) {
+    let mut starts = Vec::new();
+    let mut pos = 0;
+    for x in t {
+        if let Tok::Msg(m) = x {
+            starts.push(pos);
+            pos += 5 + m.len();
+        }
+    }
+    (starts, pos)
+}
+
+/// a transport plan over a body of `total` bytes whose frames start at `starts`
+fn gen_plan(rng: &mut Rng, starts: &[usize], total: usize) -> Vec<Step> {
+    let style = rng.below(7);
+    let mut cuts: Vec<usize> = match style {
+        0 => vec![],
+        1 if total <= 400 => (1..total).collect(),
+        2 | 1 => {
+            // every boundary inside the 5-byte prefix (and just after it) of each frame, with prob.
+            let mut c = Vec::new();
+            for st in starts {
+                for k in 0..=6 {
+                    if rng.chance(2, 3) {
+                        c.push(st + k);
+                    }
+                }
+            }
+            c
+        }
+        3 => {
+            // the last message and the end of the body in one piece, everything before byte by byte
+            let last = starts.last().copied().unwrap_or(0);
+            (1..=last.min(300)).collect()
+        }
+        4 => {
+            // one cut at a frame boundary ± 1
+            let mut c = Vec::new();
+            if let Some(st) = starts.get(rng.below(starts.len().max(1) as u64) as usize) {
+                c.push((*st + rng.below(3) as usize).saturating_sub(1));
+            }
+            c
+        }
+        _ => {
+            let k = rng.range(1, 6) as usize;
+            (0..k).map(|_| rng.below(total as u64 + 1) as usize).collect()
+        }
+    };
+    cuts.retain(|c| *c > 0 && *c < total);
+    cuts.sort();
+    cuts.dedup();
+    let mut plan = Vec::new();
+    let mut prev = 0;
+    let pend = rng.chance(1, 2);
+    for c in cuts {
+        while pend && rng.chance(1, 5) {
+            plan.push(Step::Pend);
+        }
+        if rng.chance(1, 30) {
+            plan.push(Step::Take(0)); // an empty data frame
+        }
+        plan.push(Step::Take(c - prev));
+        prev = c;
+    }
+    match rng.below(4) {
+        0 => {
+            // rest of the data explicitly, then Pending before the trailers / end
+            if total > prev {
+                plan.push(Step::Take(total - prev));
+            }
+            plan.push(Step::Pend);
+        }
+        1 => {
+            if total > prev {
+                plan.push(Step::Take(total - prev + rng.below(3) as usize)); // asks for more than there is
+            }
+        }
+        _ => {} // last piece and trailers handed over back to back
+    }
+    plan
+}
+
+/// fragment sizes of the byte pipe for `h2` cases
+fn gen_pipe_plan(rng: &mut Rng) -> Vec<Step> {
+    match rng.below(6) {
+        0 => vec![],
+        1 => vec![Step::Take(1)],
+        2 => vec![Step::Take(rng.range(2, 9) as usize)],
+        3 => vec![Step::Take(9), Step::Take(1), Step::Pend, Step::Take(5)], // frame header | first payload byte | …
+        4 => (0..rng.range(2, 6)).map(|_| if rng.chance(1, 5) { Step::Pend } else { Step::Take(rng.range(1, 40) as usize) }).collect(),
+        _ => vec![Step::Take(rng.range(10, 4000) as usize)],
+    }
+}
+
+fn gen_yield(rng: &mut Rng, total: usize) -> usize {
+    match rng.below(7) {
+        0 => 0,
+        1 => 1,
+        2 => 5,
+        3 => 6,
+        4 => rng.below(total as u64 + 2) as usize,
+        _ => 32 * 1024,
+    }
+}
+
+/// a call of one of the four shapes with matching client and server, everything in scope
+fn gen_structured(rng: &mut Rng, h2: bool) -> Case {
+    let q = rng.chance(1, 2);
+    let sresp = rng.chance(1, 2);
+    let maxlen = *rng.pick(&[8usize, 40, 300, 2000]);
+    let rq = if q {
+        let k = match rng.below(5) {
+            0 => 0,
+            1 => 1,
+            _ => rng.range(2, 5) as usize,
+        };
+        gen_sched(rng, k, maxlen, true)
+    } else {
+        vec![Tok::Msg(gen_msg(rng, maxlen))]
+    };
+    let nreq = rq.iter().filter(|t| matches!(t, Tok::Msg(_))).count();
+    let reads = if q {
+        match rng.below(4) {
+            0 => rng.below(nreq as u64 + 1) as usize, // stops early, or asks exactly as many times as there are messages
+            1 => nreq + 1,
+            _ => nreq + 1 + rng.below(3) as usize,
+        }
+    } else {
+        0
+    };
+    let early = if rng.chance(1, 5) { Some(gen_status(rng, h2)) } else { None };
+    let (body, fin) = if sresp {
+        let k = match rng.below(5) {
+            0 => 0,
+            1 => 1,
+            _ => rng.range(2, 5) as usize,
+        };
+        (gen_sched(rng, k, maxlen, true), if rng.chance(2, 5) { Some(gen_status(rng, h2)) } else { None })
+    } else {
+        (vec![Tok::Msg(gen_msg(rng, maxlen))], None)
+    };
+    let (rq_starts, rq_total) = frame_starts(&rq);
+    let (rs_starts, rs_total) = frame_starts(&body);
+    let yield_thr = gen_yield(rng, rq_total.max(rs_total));
+    Case {
+        h2,
+        conc: 1,
+        comp: None,
+        srv_req_stream: q,
+        srv_resp_stream: sresp,
+        cli_resp_stream: sresp,
+        yield_thr,
+        rq_md: gen_md(rng, h2),
+        rq_cut: if h2 { gen_pipe_plan(rng) } else { gen_plan(rng, &rq_starts, rq_total) },
+        rq,
+        reads,
+        early,
+        init_md: gen_md(rng, h2),
+        body,
+        fin,
+        rs_cut: if h2 { gen_pipe_plan(rng) } else { gen_plan(rng, &rs_starts, rs_total) },
+    }
+}
+
+/// out-of-contract variations: mismatched shapes, undecodable messages, OK-coded errors,
+/// protocol headers in user metadata, no message where one is due
+fn gen_malformed(rng: &mut Rng, h2: bool) -> Case {
+    let mut c = gen_structured(rng, h2);
+    match rng.below(8) {
+        0 => {
+            // client stream API against a unary-request server: 0 or several request messages
+            c.srv_req_stream = false;
+            let k = *rng.pick(&[0usize, 2, 3]);
+            c.rq = gen_sched(rng, k, 20, true);
+        }
+        1 => {
+            // unary client API against a streaming-response server (0, 1, 2 messages; maybe an error)
+            c.srv_resp_stream = true;
+            c.cli_resp_stream = false;
+            let k = *rng.pick(&[0usize, 1, 2]);
+            c.body = gen_sched(rng, k, 20, true);
+            c.fin = if rng.chance(1, 2) { Some(gen_status(rng, h2)) } else { None };
+        }
+        2 => {
+            // a request message the server's codec refuses
+            let pos = rng.below(c.rq.len() as u64 + 1) as usize;
+            c.rq.insert(pos.min(c.rq.len()), Tok::Msg(vec![0xFF, 1, 2]));
+            if !c.srv_req_stream {
+                c.rq.truncate(1);
+                c.rq[0] = Tok::Msg(vec![0xFF, 1, 2]);
+            }
+        }
+        3 => {
+            // a response message the client's codec refuses
+            if c.srv_resp_stream {
+                let pos = rng.below(c.body.len() as u64 + 1) as usize;
+                c.body.insert(pos, Tok::Msg(vec![0xFF, 9]));
+            } else {
+                c.body = vec![Tok::Msg(vec![0xFF, 9])];
+            }
+        }
+        4 => {
+            // an "error" whose code is OK
+            let mut st = gen_status(rng, h2);
+            st.code = 0;
+            if rng.chance(1, 2) || !c.srv_resp_stream {
+                c.early = Some(st);
+            } else {
+                c.early = None;
+                c.fin = Some(st);
+            }
+        }
+        5 => {
+            // user metadata naming the compression header
+            let v = s(*rng.pick(&["gzip", "identity", "br", "zstd"]));
+            match rng.below(3) {
+                0 => c.rq_md.push((s("grpc-encoding"), v)),
+                1 => c.init_md.push((s("grpc-encoding"), v)),
+                _ => {
+                    let mut st = gen_status(rng, h2);
+                    st.md.push((s("grpc-encoding"), v));
+                    c.early = Some(st);
+                }
+            }
+        }
+        6 => {
+            // other protocol-looking names that tonic does not reserve
+            c.rq_md.push((s("grpc-accept-encoding"), s("gzip")));
+            c.init_md.push((s("grpc-accept-encoding"), s("identity,gzip")));
+            c.init_md.push((s("grpc-timeout"), s("1S")));
+        }
+        _ => {
+            // mismatched response API the other way: streaming client API, unary-response server
+            c.srv_resp_stream = false;
+            c.cli_resp_stream = true;
+            c.body = vec![Tok::Msg(gen_msg(rng, 30))];
+            c.fin = None;
+        }
+    }
+    c
+}
+
+fn corpus() -> Vec<Case> {
+    let base = Case {
+        h2: false,
+        conc: 1,
+        comp: None,
+        srv_req_stream: false,
+        srv_resp_stream: false,
+        cli_resp_stream: false,
+        yield_thr: 32 * 1024,
+        rq_md: vec![(s("x-a"), s("1")), (s("x-b"), s("2")), (s("x-a"), s("3")), (s("te"), s("gzip")), (s("content-type"), s("text/plain"))],
+        rq: vec![Tok::Msg(vec![1, 2, 3])],
+        rq_cut: vec![],
+        reads: 0,
+        early: None,
+        init_md: vec![(s("x-r"), s("a")), (s("x-r"), s("b")), (s("data-bin"), b64(&[0, 255, 7]))],
+        body: vec![Tok::Msg(vec![9, 8, 7, 6])],
+        fin: None,
+        rs_cut: vec![],
+    };
+    let rich = StatusSpec {
+        code: 9,
+        msg: "50% \u{e9}chec\nligne 2 \u{2713}".as_bytes().to_vec(),
+        details: vec![0, 255, 16, 32, 48],
+        md: vec![
+            (s("x-a"), s("1")),
+            (s("x-b"), s("mid")),
+            (s("x-a"), s("2")),
+            (s("trace-bin"), b64(&[1, 2, 3, 4])),
+            (s("trace-bin"), b64(&[5])),
+            (s("grpc-status"), s("0")),
+            (s("grpc-message"), s("forged")),
+            (s("content-type"), s("text/html")),
+            (s("grpc-status-details-bin"), s("QUJD")),
+        ],
+    };
+    let mut out = Vec::new();
+    // unary ok / unary rich error
+    out.push(base.clone());
+    out.push(Case { early: Some(rich.clone()), ..base.clone() });
+    // server streaming: error after two messages; whole body and trailers handed over back to back
+    let ss = Case {
+        srv_resp_stream: true,
+        cli_resp_stream: true,
+        body: vec![Tok::Msg(vec![1]), Tok::Pend, Tok::Msg(vec![]), Tok::Msg(vec![2; 40])],
+        fin: Some(rich.clone()),
+        ..base.clone()
+    };
+    out.push(ss.clone());
+    // … last data byte and trailers in the same poll, everything before it byte by byte
+    out.push(Case { rs_cut: (0..56).map(|_| Step::Take(1)).collect(), ..ss.clone() });
+    // … cut inside every length prefix, Pending before the trailers
+    out.push(Case { rs_cut: vec![Step::Take(1), Step::Take(3), Step::Pend, Step::Take(2), Step::Take(4), Step::Take(2), Step::Take(100), Step::Pend], ..ss.clone() });
+    // error before the first message: as Err(status) and as a stream that fails at once
+    out.push(Case { early: Some(rich.clone()), ..ss.clone() });
+    out.push(Case { body: vec![], ..ss.clone() });
+    out.push(Case { body: vec![Tok::Pend, Tok::Pend], ..ss.clone() });
+    // client streaming and bidi
+    let cs = Case {
+        srv_req_stream: true,
+        rq: vec![Tok::Msg(vec![1, 1]), Tok::Pend, Tok::Msg(vec![]), Tok::Msg(vec![3; 10])],
+        rq_cut: vec![Step::Take(2), Step::Pend, Step::Take(4), Step::Take(1), Step::Take(0), Step::Take(7)],
+        reads: 10,
+        ..base.clone()
+    };
+    out.push(cs.clone());
+    out.push(Case { reads: 2, ..cs.clone() });
+    out.push(Case { reads: 3, ..cs.clone() });
+    out.push(Case { reads: 0, early: Some(rich.clone()), ..cs.clone() });
+    out.push(Case { srv_resp_stream: true, cli_resp_stream: true, body: ss.body.clone(), fin: Some(rich.clone()), ..cs.clone() });
+    out.push(Case { srv_resp_stream: true, cli_resp_stream: true, body: ss.body.clone(), fin: None, yield_thr: 0, ..cs.clone() });
+    // out of contract: missing request / response message, OK-coded error, forged grpc-encoding
+    out.push(Case { rq: vec![], ..base.clone() });
+    out.push(Case { srv_resp_stream: true, body: vec![], ..base.clone() });
+    out.push(Case { early: Some(StatusSpec { code: 0, ..rich.clone() }), ..base.clone() });
+    out.push(Case { init_md: vec![(s("grpc-encoding"), s("gzip"))], ..base.clone() });
+    out.push(Case { rq_md: vec![(s("grpc-encoding"), s("gzip"))], ..base.clone() });
+    // … the same name on a status returned as Err (trailers-only: it travels in HEADERS), and in
+    // the trailers of a stream (harmless there); value `identity` (accepted)
+    let mut forged = rich.clone();
+    forged.md.push((s("grpc-encoding"), s("br")));
+    out.push(Case { early: Some(forged.clone()), ..base.clone() });
+    out.push(Case { fin: Some(forged), ..ss.clone() });
+    out.push(Case { init_md: vec![(s("grpc-encoding"), s("identity"))], ..base.clone() });
+    out
+}
+
+pub fn generate(tier: &str, rng: &mut Rng) -> Vec<String> {
+    let thorough = tier == "thorough";
+    let mut out: Vec<String> = corpus().iter().map(|c| c.line()).collect();
+    let mut h2: Vec<String> = Vec::new();
+    if thorough {
+        // the corpus over real HTTP/2 as well, whole and byte by byte
+        for c in corpus() {
+            for plan in [vec![], vec![Step::Take(1)], vec![Step::Take(9), Step::Take(1), Step::Pend, Step::Take(5)]] {
+                h2.push(Case { h2: true, rq_cut: plan.clone(), rs_cut: plan.clone(), ..c.clone() }.line());
+                h2.push(Case { h2: true, conc: 3, rq_cut: plan.clone(), rs_cut: plan, ..c.clone() }.line());
+            }
+        }
+    }
+    let (n_struct, n_mal, n_h2, n_h2_mal) = if thorough { (400000, 60000, 40000, 6000) } else { (24000, 4000, 0, 0) };
+    let mut inproc: Vec<String> = Vec::new();
+    for i in 0..n_struct {
+        let mut c = gen_structured(rng, false);
+        if i % 8 == 7 {
+            // compression on at both ends; the model predicts the same results
+            c.comp = Some(*rng.pick(&['g', 'd', 'z']));
+        }
+        inproc.push(c.line());
+    }
+    for _ in 0..n_mal {
+        inproc.push(gen_malformed(rng, false).line());
+    }
+    for i in 0..n_h2 {
+        let mut c = gen_structured(rng, true);
+        if i % 4 == 3 {
+            c.conc = 3;
+        }
+        h2.push(c.line());
+    }
+    for _ in 0..n_h2_mal {
+        h2.push(gen_malformed(rng, true).line());
+    }
+    // the HTTP/2 cases are much slower than the in-process ones: spread them evenly over the
+    // case list (the runner shards it in contiguous blocks)
+    let every = if h2.is_empty() { usize::MAX } else { (inproc.len() / h2.len()).max(1) };
+    let mut h2 = h2.into_iter();
+    for (i, c) in inproc.into_iter().enumerate() {
+        out.push(c);
+        if i % every == every - 1 {
+            if let Some(h) = h2.next() {
+                out.push(h);
+            }
+        }
+    }
+    out.extend(h2);
+    out
 }
